@@ -454,9 +454,12 @@ def check_purity(case):
         w = W.call(f"{nm}.__init__", cls, m)
         if w is not None:
             s1 = W.call(f"{nm}.__str__", lambda: str(w) if fam != "writer_xmlbif" else w.__str__())
+            # the same question twice: two consecutive str() calls.  (The get_* methods of XMLBIFWriter are the
+            # construction helpers that __init__ already ran; calling them again appends to the writer's own tree by
+            # design, so they are exercised below only for purity of the *model*, after the repeatability comparison.)
+            s2 = W.call(f"{nm}.__str__", lambda: str(w) if fam != "writer_xmlbif" else w.__str__())
             for meth in [x for x in dir(cls) if x.startswith("get_")]:
                 W.call(f"{nm}.{meth}", getattr(w, meth))
-            s2 = W.call(f"{nm}.__str__", lambda: str(w) if fam != "writer_xmlbif" else w.__str__())
             if s1 is not None and s2 is not None and s1 != s2:
                 W.fails.append({"key": f"{nm}.__str__:not-repeatable", "what": f"two str() calls on one writer differ:\n{str(s1)[:300]}\n---\n{str(s2)[:300]}"})
             wm = [x for x in dir(cls) if x.startswith("write_")][0]
